@@ -656,34 +656,36 @@ Qed.
 
 (* the link: performSwitchover does nothing before DisableAll has completed without error
    on the candidates, and until then issues only DisableAll's own calls *)
+Definition switch_candidates (env : sw_env) (sw : switch_rec) : list host :=
+  match sw_cause_ sw, sw_from sw with
+  | CauseAuto, Some f => if N.eqb f (se_old_master env) then filter_out (se_active env) [se_old_master env] else se_active env
+  | _, _ => se_active env
+  end.
 Theorem switchover_disables_first cfg env sw mem tr o : runs (perform_switchover cfg env sw mem) tr o ->
+  let active := registered_only (map fst (se_all_hosts env)) (switch_candidates env sw) in
   tr = [] \/
-  exists active tr1 tr2, tr = tr1 ++ tr2 /\ incl active (se_active env) /\
+  exists tr1 tr2, tr = tr1 ++ tr2 /\
     Forall (fun e => disable_call (ev_call e)) tr1 /\
     (runs (opt_disable_all (se_old_master env) active) tr1 (Done None) \/
-     (tr2 = [] /\ exists o1, runs (opt_disable_all_k (mem_host (se_old_master env) (map fst (se_all_hosts env)) && forallb (fun h => mem_host h (map fst (se_all_hosts env))) active) (se_old_master env) active) tr1 o1 /\ o1 <> Done None)).
+     (tr2 = [] /\ exists o1, runs (opt_disable_all_k (mem_host (se_old_master env) (map fst (se_all_hosts env))) (se_old_master env) active) tr1 o1 /\ o1 <> Done None)).
 Proof.
   unfold perform_switchover.
   destruct (match sw_to sw with Some t => negb (mem_host t (se_active env)) | None => false end); [cbn; intros [-> _]; left; reflexivity|].
   destruct (match dubious_ha_hosts (se_state env) with [] => false | _ => true end); [cbn; intros [-> _]; left; reflexivity|].
-  set (active := match sw_cause_ sw, sw_from sw with
-                 | CauseAuto, Some f => if N.eqb f (se_old_master env) then filter_out (se_active env) [se_old_master env] else se_active env
-                 | _, _ => se_active env end).
-  assert (Hincl : incl active (se_active env)).
-  { subst active. destruct (sw_cause_ sw); try apply incl_refl. destruct (sw_from sw); try apply incl_refl.
-    destruct (N.eqb _ _); try apply incl_refl. unfold filter_out. intros x Hx. apply filter_In in Hx. apply Hx. }
+  fold (switch_candidates env sw).
+  set (active := registered_only (map fst (se_all_hosts env)) (switch_candidates env sw)).
   intros H. right.
   assert (AC : forall k, allcalls (fun _ c => disable_call c) (opt_disable_all_k k (se_old_master env) active)).
   { intros k. unfold opt_disable_all_k. destruct k; [apply disable_all_calls|]. unfold dcs_children_. cbn [bind allcalls]. split; [exact I|]. intros r; destruct r; exact I. }
   destruct (runs_bind_inv _ _ _ _ H) as [(t1 & t2 & a & R1 & R2 & ->)|(s & R1 & ->)].
-  - exists active, t1, t2. split; [reflexivity|]. split; [exact Hincl|].
+  - exists t1, t2. split; [reflexivity|].
     split; [exact (allcalls_sound _ _ (AC _) _ _ R1)|].
     destruct a as [x|].
     + right. cbn in R2. destruct R2 as [-> _]. split; [reflexivity|]. exists (Done (Some x)). split; [exact R1|discriminate].
-    + left. unfold opt_disable_all_k in R1. destruct (mem_host _ _ && _); [exact R1|].
+    + left. unfold opt_disable_all_k in R1. destruct (mem_host _ _); [exact R1|].
       exfalso. unfold dcs_children_ in R1. cbn [bind runs] in R1. destruct t1 as [|e t1']; [destruct R1|]. destruct R1 as (_ & _ & R1).
       destruct (ev_resp e); cbn in R1; destruct R1 as [_ R1]; discriminate R1.
-  - exists active, tr, []. split; [rewrite app_nil_r; reflexivity|]. split; [exact Hincl|].
+  - exists tr, []. split; [rewrite app_nil_r; reflexivity|].
     split; [exact (allcalls_sound _ _ (AC _) _ _ R1)|]. right. split; [reflexivity|]. exists (Panicked s). split; [exact R1|discriminate].
 Qed.
 
